@@ -32,6 +32,35 @@ def array_type_mix(forms):
     return len(ts) > 1 and bool(ts & {"T", "F"})
 
 
+def run_math(ctx, records):
+    """the arithmetic the ranges are built on (start + i * delta and the operations below it): every record of ArgMath.tla
+    (TLC checks the algebra's laws on each) through the real functions, judged by ArgMathTrace.tla"""
+    if records is None:
+        records, r = ctx.vectors("ArgMathGen", "ArgMathGen.cfg", "argmath")
+        uniq = {}
+        for q in records:               # (every state is written once as an initial state and once as its own stuttering successor)
+            uniq[json.dumps(q, sort_keys=True)] = q
+        records = [uniq[k] for k in sorted(uniq)]
+        if len(records) != r.distinct:
+            raise core.Broken("ArgMath wrote %d distinct records for %d states" % (len(records), r.distinct))
+        ctx.bounds["arithmetic_records"] = len(records)
+    p = ctx.write_ndjson("argmath.ndjson", records)
+    ctx.driver("argmath_driver", "asan", [p, ctx.path("argmath_log.ndjson")])
+    rej = ctx.validate("ArgMathTrace", "ArgMathTrace.cfg", ctx.path("argmath_log.ndjson"))
+    recs = ctx.read_ndjson(ctx.path("argmath_log.ndjson"))
+    for i, r in enumerate(recs, 1):
+        ctx.evaluations += 1
+        q = r["rec"]
+        if q["op"] in ("range", "mult", "div"):
+            ctx.nontrivial.add(json.dumps(q, sort_keys=True))
+        for c in rej.get(i, []):
+            ctx.reject(dict(clause="arithmetic:" + c, op=q["op"], type=q["a"]["t"]), q,
+                       "clause %s fails for %s(%s:%s%s%s)%s: the function returned %s, %s:%s" % (c, q["op"], q["a"]["t"], q["a"]["n"], (", %s:%s" % (q["b"]["t"], q["b"]["n"])) if q["b"]["t"] != "?" else "",
+                            (", i = %s" % q["i"]) if q["op"] in ("range", "fromint") else "", " (64-bit operands times 2^32)" if q["scale"] else "", r["ok"], r["t"], r["n"]))
+    ctx.notes["arithmetic_records"] = len(recs)
+    ctx.sample(dict(arithmetic=recs[len(recs) // 3]["rec"], returned=dict(ok=recs[len(recs) // 3]["ok"], t=recs[len(recs) // 3]["t"], n=recs[len(recs) // 3]["n"])))
+
+
 def run(ctx):
     ctx.rule = ("lists of 0..3 values from three pools (numbers i/h/f/d/c with runs; texts s/S/b/m/t/r with prefixes and 'immediately'; T/F/N/I and arrays of "
                 "i/s/T/F/S of length 0..2) x every compressed form; blocks of up to 40 forms: all pairs and triples; plus blocks of longer lists "
@@ -40,6 +69,9 @@ def run(ctx):
                        "a repeated value is never an array (the iterator cannot repeat one)"]
     if ctx.replay:
         case = json.load(open(ctx.replay))["case"]
+        if "op" in case:
+            run_math(ctx, [case])
+            return
         blocks = [case]
     else:
         thorough = ctx.tier == "thorough"
@@ -100,6 +132,8 @@ def run(ctx):
         for c in rej.get(i, []):
             ctx.reject(dict(clause=c, blob_zero_extension_pair=blob_prefix_pair(r["forms"]), array_type_mix=array_type_mix(r["forms"])),
                        dict(forms=r["forms"], owner=r["owner"]), "clause %s fails in a block of %d forms, e.g. %s" % (c, K, [show(f) for f in r["forms"][:6]]))
+    if not ctx.replay:
+        run_math(ctx, None)
     ctx.notes["blocks"] = len(recs)
     if recs:
         r = recs[len(recs) // 2]
